@@ -232,7 +232,7 @@ func generate(rng *rand.Rand) Case {
 						ops = append(ops, prev)
 						cur[name][h] = prev
 					}
-					op.Tags = gen.Pick(rng, "latest", "latest", "current,latest,lts", "latest,next", "lts,latest")
+					op.Tags = gen.Pick(rng, "latest", "latest", "current,latest,lts", "latest,next", "lts,latest", "latest-rc,latest", "next,latest-rc,latest")
 					latest[name] = ver
 				}
 			case 1:
